@@ -15,6 +15,7 @@ def main(argv):
 		replay = argv[argv.index('--replay') + 1]
 	seed = int(os.environ.get('VERIF_SEED', '20260930'))
 	tier = os.environ.get('VERIF_TIER', tier) if tier not in ('quick', 'thorough') else tier
+	framework.COV = framework._cov_start()   # before the implementation is imported, so that module-level statements count as executed
 	spec = importlib.import_module('harness.props.' + pid)
 	return framework.run(spec, tier, seed, replay)
 
